@@ -447,7 +447,7 @@ class StmtMixin:
         if isinstance(test, ast.Call) and isinstance(test.func, ast.Name) and test.func.id == 'isinstance' and positive \
                 and isinstance(test.args[0], ast.Name) and isinstance(test.args[1], ast.Name) and test.args[0].id in st.env:
             v = st.env[test.args[0].id]
-            cn = test.args[1].id
+            cn = self.class_alias(test.args[1].id)
             if not isinstance(v, SeqV) and cn in self.reg.classes:
                 if v.ty.kind == 'obj' and cn in self.reg.subclasses(v.ty.args[0]):
                     st.env[test.args[0].id] = SV(TObj(cn), v.z)
